@@ -73,7 +73,7 @@ def build_harness():
 
 
 # ----------------------------------------------------------------------------------------------- TLC
-def run_tlc(module, cfg, out_path, workdir, workers=1, env_extra=None, timeout=3600, xmx='4g', coverage=False):
+def run_tlc(module, cfg, out_path, workdir, workers=1, env_extra=None, timeout=1800, xmx='4g', coverage=False, simulate=None, seed=0):
     md = os.path.join(workdir, 'md_' + os.path.basename(out_path))
     env = dict(os.environ)
     env['JAVA_TOOL_OPTIONS'] = '-Xss1g -Xmx%s' % xmx
@@ -83,6 +83,8 @@ def run_tlc(module, cfg, out_path, workdir, workers=1, env_extra=None, timeout=3
            '-config', os.path.join(SPEC, cfg), os.path.join(SPEC, module + '.tla')]
     if coverage:
         cmd[1:1] = ['-coverage', '1']
+    if simulate:
+        cmd[1:1] = ['-simulate', 'num=%d' % simulate[0], '-depth', str(simulate[1]), '-seed', str(1 + seed)]
     with open(out_path, 'w') as f:
         try:
             p = subprocess.run(cmd, cwd=workdir, env=env, stdout=f, stderr=subprocess.STDOUT, timeout=timeout)
@@ -93,6 +95,7 @@ def run_tlc(module, cfg, out_path, workdir, workers=1, env_extra=None, timeout=3
 
 
 STATS_RE = re.compile(r'^(\d+) states generated, (\d+) distinct states found')
+SIM_RE = re.compile(r'^The number of states generated: (\d+)')
 
 
 def parse_mc_output(path):
@@ -112,6 +115,10 @@ def parse_mc_output(path):
             m = STATS_RE.match(line)
             if m:
                 trans, states = int(m.group(1)), int(m.group(2))
+            m = SIM_RE.match(line)
+            if m:
+                trans = states = int(m.group(1))
+                ok = True
             if line.startswith('Error:') or 'is violated' in line:
                 errors.append(line.strip())
             if 'Model checking completed. No error has been found.' in line:
@@ -235,7 +242,8 @@ class Stage:
     """One scenario family: an MC model that emits scripts (or a generator), and the validator for the events."""
 
     def __init__(self, name, trace, mc=None, gen=None, shard_events=2500, mc_workers=8, nontrivial=None, sample_every=997,
-                 post=None, mc_xmx='8g'):
+                 post=None, mc_xmx='8g', sim=None):
+        self.sim = sim
         self.name, self.trace, self.mc, self.gen = name, trace, mc, gen
         self.shard_events, self.mc_workers = shard_events, mc_workers
         self.nontrivial = nontrivial
@@ -256,7 +264,7 @@ def run_stage(stage, workdir, seed, tier, result):
     if stage.mc:
         module, cfg = stage.mc
         out = os.path.join(workdir, tag + '.mc.out')
-        run_tlc(module, cfg, out, workdir, workers=stage.mc_workers, xmx=stage.mc_xmx)
+        run_tlc(module, cfg, out, workdir, workers=1 if stage.sim else stage.mc_workers, xmx=stage.mc_xmx, simulate=stage.sim, seed=seed)
         states, trans, scripts, errors = parse_mc_output(out)
         if errors:
             raise ToolError('model checking %s/%s: %s' % (module, cfg, errors[0]))
